@@ -55,6 +55,8 @@ def count_of(root, dom):
     dom = z3.simplify(dom)
     if z3.is_false(dom):
         return z3.IntVal(0)
+    if isinstance(root, KeySpace) and not root.keys:
+        return z3.If(dom, z3.IntVal(1), z3.IntVal(0))  # the universe of the empty key tuple has one element
     key = (root.name, dom.get_id())
     if key not in _COUNTS:
         # count congruence: a domain that is (propositionally / theory-) equivalent to a known one shares its symbol
@@ -69,6 +71,17 @@ def count_of(root, dom):
                 return c
         _COUNTS[key] = (z3.Int(fresh_name(f"cnt_{root.name}")), dom)
     return _COUNTS[key][0]
+
+
+def count_witness(ctx, root, dom):
+    """ghost: |{u : dom(u)}| != 0 => a witness row; the generic rows in dom => the count is >= 1"""
+    _use("count_witness (a non-empty finite set has an element; a set with an element has cardinality >= 1)")
+    c = count_of(root, dom)
+    w = z3.Int(fresh_name("cntwit"))
+    ctx.assume(z3.Implies(c != 0, z3.And(w >= 0, w < root.n, z3.substitute(dom, (root.u, w)))))
+    for g in (root.u, root.u2):
+        ctx.assume(z3.Implies(z3.And(g >= 0, g < root.n, z3.substitute(dom, (root.u, g))), c >= 1))
+    return w
 
 
 def count_facts():
@@ -211,7 +224,14 @@ class Frame:
             m = z3.And(m, z3.Not(mask.nan))
         doms = [z3.And(d, ax.seg_term(m, i)) for i, d in enumerate(ax.doms)]
         new = RowAxis(ax.root, doms, ax.order, sel=ax.sel)
-        return self._new(new, index=("labels", self.index))
+        out = self._new(new, index=("labels", self.index))
+        # the labels of the kept rows: positions in the unfiltered frame when that frame had a fresh RangeIndex
+        prev = getattr(self, "_sel_from", None)
+        if prev is not None:
+            out._sel_from = (prev[0], z3.And(prev[1], m))
+        elif self.index[0] == "range":
+            out._sel_from = (ax, m)
+        return out
 
     def flatten(self, interp):
         """a concatenated frame whose segments are pairwise key-disjoint (proved under the path condition) as ONE
@@ -221,8 +241,12 @@ class Frame:
             return self
         for i in range(len(ax.doms)):
             for j in range(i + 1, len(ax.doms)):
-                if not _provably(interp, z3.Not(z3.And(ax.doms[i], ax.doms[j]))):
-                    raise Undecided("flattening a concatenated frame whose parts may share a key")
+                disjoint = z3.Not(z3.And(ax.doms[i], ax.doms[j]))
+                if not _provably(interp, disjoint):
+                    # not provable within the small budget: a proper obligation (assert, then assume) -- a key that
+                    # occurs in two parts would be joined twice
+                    interp.ctx.oblige(f"key_unique.parts_{i}_{j}", disjoint, kind="alignment", why="a concatenated frame used as the key-unique side of a merge: its parts must not share a key (a shared key is joined twice)")
+                    interp.ctx.assume(disjoint)
         new = RowAxis(ax.root, [z3.Or(*ax.doms)], ("flattened", ax.order))
         f = self.__class__(new, {}, ("flattened", self.index), self.idkey)
         for k, c in self.cols.items():
@@ -730,16 +754,30 @@ def _m_merge(self, interp):
 
 
 def merge_frames(interp, left, right, how="inner", on=None, suffixes=("_x", "_y"), indicator=False, **kw):
-    if kw or indicator:
-        raise Undecided(f"merge options {sorted(kw)} / indicator")
-    if on is None:
+    from . import levels
+
+    if isinstance(right, levels.PartsFrame):
+        if indicator:
+            raise Undecided("merge with a multi-level table and indicator")
+        return levels.merge_with_parts(interp, left, right, how, on, **kw)
+    if kw:
+        raise Undecided(f"merge options {sorted(kw)}")
+    if on is None and how != "cross":
         raise Undecided("merge without on=")
-    on = [on] if isinstance(on, str) else list(on)
+    on = [] if on is None else [on] if isinstance(on, str) else list(on)
     if left.axis.root is not right.axis.root:
         lk, rk = isinstance(left.axis.root, KeySpace), isinstance(right.axis.root, KeySpace)
+        if indicator:
+            raise Undecided("merge of frames over different universes with indicator")
         if lk != rk and how == "inner":
             return _merge_group_with_units(interp, left if lk else right, right if lk else left, on, group_is_left=lk)
+        if lk and rk and levels._nested(right.axis.root, left.axis.root):
+            return levels.merge_coarse_fine(interp, left, right, on, how, fine_is_left=True)
+        if lk and rk and levels._nested(left.axis.root, right.axis.root):
+            return levels.merge_coarse_fine(interp, right, left, on, how, fine_is_left=False)
         raise Undecided("merge of frames over different universes")
+    if how == "cross":
+        raise Undecided("cross merge of frames over the same universe")
     if len(left.axis.doms) != 1:
         left = left.flatten(interp)
     if len(right.axis.doms) != 1:
@@ -812,6 +850,10 @@ def merge_frames(interp, left, right, how="inner", on=None, suffixes=("_x", "_y"
         if c in on:
             continue
         put(c + suffixes[1] if c in overlap else c, right.cols[c], z3.And(rd, match) if how in ("left", "outer") else z3.BoolVal(True))
+    if indicator:
+        _use("merge(..., indicator=True): column _merge in {'both','left_only','right_only'}")
+        both_t, lo_t, ro_t = z3.StringVal("both"), z3.StringVal("left_only"), z3.StringVal("right_only")
+        out.cols["_merge"] = V(z3.If(both, both_t, z3.If(ld, lo_t, ro_t)), (ax,), out.index)
     return out
 
 
@@ -986,6 +1028,12 @@ class ILoc:
         if isinstance(key, slice):
             _use("DataFrame.iloc[a:b]: positional row slice")
             return self.frame.slice_rows(interp, key)
+        if isinstance(key, IndexSel):
+            f = self.frame
+            if not (same_rows(key.base, f.axis) or provably_same_rows(key.base, f.axis)):
+                raise Undecided("iloc[positions] taken from a frame with other rows")
+            _use("DataFrame.iloc[positions of the rows kept by a filter of a row-aligned frame]: the same filter applied to this frame")
+            return f.filter(V(key.mask, (f.axis,), None))
         raise Undecided("DataFrame.iloc with a non-slice key")
 
 
@@ -993,8 +1041,19 @@ def _m_iloc(self, interp):
     return ILoc(self)
 
 
+class IndexSel:
+    """index labels of a row-filtered frame whose unfiltered frame had a fresh RangeIndex: the POSITIONS of the kept rows"""
+
+    def __init__(self, base, mask):
+        self.base = base
+        self.mask = mask
+
+
 def _m_index(self, interp):
-    raise Undecided("DataFrame.index")
+    sf = getattr(self, "_sel_from", None)
+    if sf is None:
+        raise Undecided("DataFrame.index")
+    return IndexSel(*sf)
 
 
 _FRAME_METHODS = {
@@ -1318,6 +1377,10 @@ def pd_concat(interp):
         objs = list(objs)
         if axis != 0:
             raise Undecided("pd.concat along columns")
+        from . import levels
+
+        if any(isinstance(o, levels.PartsFrame) for o in objs) or (all(isinstance(o, Frame) for o in objs) and any(o.axis.root is not objs[0].axis.root for o in objs)):
+            return levels.concat(interp, objs)
         if not all(isinstance(o, Frame) for o in objs):
             raise Undecided("pd.concat of non-frames")
         _use("pd.concat(frames, axis=0): rows appended in order; columns absent from a part are null there; index labels kept")
@@ -1513,6 +1576,10 @@ def SeqLenOf(axis):
 
 
 def pd_isnull(x):
+    from . import levels
+
+    if isinstance(x, levels.PartsFrame):
+        return levels.isnull(x)
     if isinstance(x, Frame):
         return _m_isna(x, None)()
     if isinstance(x, V):
